@@ -64,10 +64,24 @@ func urlCases(fd protoreflect.FieldDescriptor, thorough bool, isPath bool) []url
 	for _, b := range bads {
 		out = append(out, urlCase{label: "malformed:" + b, raw: []string{b}, bad: true})
 	}
+	if len(bads) > 0 && !isPath {
+		// an empty occurrence ("ids=") is not a value of a non-string kind
+		out = append(out, urlCase{label: "malformed:empty", raw: []string{""}, bad: true})
+	}
 	if fd.IsList() {
 		vals := plainScalarValues(fd, false)
 		if len(vals) >= 2 {
 			a, b := vals[0], vals[1]
+			if fd.Kind() == protoreflect.StringKind {
+				e := protoreflect.ValueOfString("")
+				out = append(out, urlCase{label: "empty_occurrences", raw: []string{"", scalarString(fd, a), ""}, want: func(m protoreflect.Message, fd protoreflect.FieldDescriptor) {
+					m.Mutable(fd).List().Append(e)
+					m.Mutable(fd).List().Append(a)
+					m.Mutable(fd).List().Append(e)
+				}})
+			} else if len(bads) > 0 {
+				out = append(out, urlCase{label: "malformed:empty_between", raw: []string{scalarString(fd, a), "", scalarString(fd, b)}, bad: true})
+			}
 			out = append(out, urlCase{label: "repeated_occurrence", raw: []string{scalarString(fd, a), scalarString(fd, b)}, want: func(m protoreflect.Message, fd protoreflect.FieldDescriptor) {
 				m.Mutable(fd).List().Append(a)
 				m.Mutable(fd).List().Append(b)
